@@ -1,7 +1,7 @@
 #!/usr/bin/env python3
 """Confirms candidate breaking changes produced by sub-agents and files the confirmed ones under /verif/seeded/.
 
-For each /tmp/mut-<ID>/patch_<ID>_<x>.diff: in a fresh scratch worktree of /repo HEAD
+For each /tmp/mut-<ID>/patch_<ID>_<x>.diff (third round: /tmp/mut3-<ID>/, x in c, d): in a fresh scratch worktree of /repo HEAD
   1. demo exits 0 on the clean tree,
   2. the patch applies, the package still imports, the demo exits 1,
   3. the full test suite passes with the patch (same pass count as the baseline).
@@ -95,7 +95,7 @@ def verify(patch):
 
 def main():
     ids = sys.argv[1:]
-    patches = sorted(glob.glob('/tmp/mut-C*/patch_C*_*.diff'))
+    patches = sorted(glob.glob('/tmp/mut-C*/patch_C*_*.diff') + glob.glob('/tmp/mut3-C*/patch_C*_*.diff'))
     if ids:
         patches = [p for p in patches if any(f'patch_{i}_' in p for i in ids)]
     with ThreadPoolExecutor(10) as ex:
